@@ -85,13 +85,42 @@ def renderDoc (d : Doc) : Rendered :=
   let t := p ++ rootOpen ++ body ++ rootClose
   { text := t ++ (if d.trailingNl then ['\n'] else []), rootStart := p.length, rootEnd := t.length, entryEnds := ends }
 
+/-! ### what the decoder's loop sees of a well-formed document (by construction of the text) -/
+
+def prologEvs : Nat → List Ev
+  | 0 => []
+  | 1 => [.other, .other]                     -- declaration, newline
+  | _ => [.other, .other, .other, .other]     -- declaration, newline, comment, newline
+
+def fillerEvs : Nat → List Ev
+  | 0 => [.other]                                      -- newline
+  | 1 => [.other, .start, .other, .other, .other]      -- newline, <copyright>, text, </copyright>, newline
+  | 2 => [.other, .other, .other]                      -- newline, comment, newline
+  | _ => []
+
+/-- The token trace of `renderDoc d` for a document whose entries are valid against the schema: the
+prolog, the root start tag and its newline, per entry one `entry` event carrying exactly the accessions,
+names and sequence text written into it (DecodeElement consumes the whole element, including the
+organism's own `name` children), the material between entries, the root end tag, the final newline.
+That encoding/xml + the Entry unmarshalling really produce this trace for the rendered text is checked by
+the driver on every undamaged case. -/
+def docTrace (d : Doc) : Trace :=
+  ⟨prologEvs d.prolog ++ [.start, .other] ++
+     d.entries.flatMap (fun e => .entry e.toEntry :: fillerEvs e.filler) ++
+     [.other] ++ (if d.trailingNl then [.other] else []), .eof⟩
+
+def Doc.valid (d : Doc) : Bool := d.entries.all (fun e => e.attrs != 2)
+
 /-! ### damage -/
 
 inductive Damage where
   | none
   | trunc (n : Nat)                -- keep the first `n` bytes
   | set (p : Nat) (c : Char)       -- overwrite byte `p`
-  | gz (kind : String) (permille : Nat)   -- applied by the harness to the gzip stream: `trunc` / `flip`
+  | gz (kind : String) (arg : Nat)   -- applied by the harness to the gzip stream: `trunc` / `flip` (position
+                                    -- in permille of the stream length) / `truncabs` (keep `arg` bytes)
+  | hset (p : Nat) (b : Nat)       -- applied by the harness to the plain bytes: byte `p` := `b` (`b ≥ 128`:
+                                    -- a lone high byte, which no Lean string can carry)
   deriving Repr
 
 def applyDamage (dm : Damage) (t : Str) : Str :=
@@ -123,9 +152,15 @@ def isEndTagName (t : Str) (p : Nat) : Bool :=
     (match t[p]? with | some c => c.isAlpha | none => false)
 
 def classify (d : Doc) (r : Rendered) (dm : Damage) : DClass :=
-  let valid := d.entries.all (fun e => e.attrs != 2)
+  let valid := d.valid
   match dm with
-  | .none => if valid then .wellformed else .unknown
+  | .none =>
+    if valid then .wellformed
+    else
+      -- an entry whose `version` attribute is not a number: DecodeElement must fail there; the entries before
+      -- it are intact (`p` = end of the last valid entry before the first invalid one)
+      let firstBad := (d.entries.takeWhile (fun e => e.attrs != 2)).length
+      .damagedAt ((r.entryEnds.take firstBad).getLast?.getD (r.rootStart + 1))
   | .trunc n =>
     if n ≥ r.rootEnd then (if valid then .wellformed else .unknown)
     else if n ≤ r.rootStart then .beforeRoot n
@@ -136,6 +171,10 @@ def classify (d : Doc) (r : Rendered) (dm : Damage) : DClass :=
     else if c == Char.ofNat 1 && d.entries.all (fun e => e.filler != 2) then .damagedAt p
     else if c == '<' && inLeafText r.text p then .damagedAt p
     else if c.isAlpha && isEndTagName r.text p then .damagedAt p
+    else .unknown
+  | .hset p b =>
+    -- a lone byte ≥ 0x80 between ASCII bytes is invalid UTF-8 wherever it stands inside the root element
+    if b ≥ 128 && b < 256 && r.rootStart ≤ p && p < r.rootEnd && d.entries.all (fun e => e.filler != 2) then .damagedAt p
     else .unknown
   | .gz _ _ => .unknown   -- decided from what the harness's own gzip reader reports
 
